@@ -134,68 +134,6 @@ theorem getRange_post (c : Cur) (sph : Bool) (corners : List (P2 R)) :
   refine PostI.bind (getSurface_post c _ sph corners) (fun mx hmx => ?_)
   exact PostI.pure ⟨hmn, hmx⟩
 
-/-! ### ridges -/
-
-theorem ridgeGo_shape (second : List R) (ridges : List (List (P2 R))) (k : Nat) :
-    EPost (Cur.getRidgeSpec.go second ridges k) (fun vels => vels.length = ridges.length ∧
-      ∀ (i : Nat) (rd : List (P2 R)) (vs : List R), ridges[i]? = some rd → vels[i]? = some vs → vs.length = rd.length) := by
-  induction ridges generalizing k with
-  | nil =>
-    unfold Cur.getRidgeSpec.go
-    exact EPost.ok ⟨rfl, fun i rd vs h => by simp at h⟩
-  | cons r rs ih =>
-    unfold Cur.getRidgeSpec.go
-    refine EPost.bind (EPost.mapM _ (fun _ => True) _ (fun _ _ => EPost.triv _)) (fun vs hvs => ?_)
-    refine EPost.bind (ih (k + r.length)) (fun rest hrest => ?_)
-    refine EPost.pure ⟨by simp [hrest.1], ?_⟩
-    intro i rd vs' h1 h2
-    cases i with
-    | zero =>
-      simp only [List.getElem?_cons_zero, Option.some.injEq] at h1 h2
-      subst h1; subst h2
-      simpa using hvs.1
-    | succ i =>
-      simp only [List.getElem?_cons_succ] at h1 h2
-      exact hrest.2 i rd vs' h1 h2
-
-/-- schema facts about `ridge coordinates` (`minItems 1`, each ridge `minItems 2`): at least one ridge, no empty ridge -/
-def SchemaRidgeCoordinates (c : Cur) : Prop :=
-  ∀ a, c.val? "ridge coordinates" = some (Json.arr a) → 0 < a.size ∧ ∀ r ∈ a.toList, ∀ b, r = Json.arr b → 0 < b.size
-
-theorem getRidgeSpec_post (c : Cur) (sph : Bool) :
-    EPost (c.getRidgeSpec (R := R) sph) (fun r => SchemaRidgeCoordinates c → r.WellFormed) := by
-  unfold Cur.getRidgeSpec
-  refine EPost.bind (EPost.triv _) (fun vs _ => ?_)
-  obtain ⟨_, second⟩ := vs
-  simp only
-  refine EPost.bind (P := fun rj => c.val? "ridge coordinates" = some (Json.arr rj)) ?_ (fun ridgesJ hrj => ?_)
-  · split
-    · rename_i v hv
-      cases v with
-      | arr a => intro b hb; simp [jarr] at hb; subst hb; exact hv
-      | _ => intro b hb; simp [jarr] at hb
-    · exact EPost.error
-  refine EPost.bind (EPost.mapM _ (fun rd => (∀ r ∈ ridgesJ.toList, ∀ b, r = Json.arr b → 0 < b.size) → 0 < rd.length) _ ?_)
-    (fun ridges hridges => ?_)
-  · intro rj hmem
-    refine EPost.bind (P := fun b => rj = Json.arr b) ?_ (fun b hb => ?_)
-    · cases rj with
-      | arr a => intro b hb; simp [jarr] at hb; subst hb; rfl
-      | _ => intro b hb; simp [jarr] at hb
-    refine EPost.bind (EPost.mapM _ (fun _ => True) _ (fun _ _ => EPost.triv _)) (fun pts hpts => ?_)
-    refine EPost.pure (fun hall => ?_)
-    have := hall rj hmem b hb
-    simp only [List.length_map, hpts.1, Array.length_toList]
-    exact this
-  split
-  · exact EPost.error_bind
-  · refine EPost.bind (ridgeGo_shape second ridges 0) (fun vels hvels => ?_)
-    refine EPost.pure (fun hschema => ?_)
-    obtain ⟨hpos, hall⟩ := hschema ridgesJ hrj
-    refine ⟨?_, fun rd hrd => hridges.2 rd hrd hall, hvels.1, hvels.2⟩
-    show 0 < ridges.length
-    rw [hridges.1]; simpa using hpos
-
 /-! ### models of the area features -/
 
 theorem parseAreaTemp_post (ctx : Ctx R) (kind : Nat) (corners : List (P2 R)) (model : String) (c : Cur) :
@@ -442,13 +380,14 @@ macro "pmi_triv" : tactic => `(tactic| repeat (first
   | split))
 
 /-- the schema facts the parser relies on without re-checking them: every feature lists at least one coordinate (`minItems 1`), and
-the ridge lists of oceanic temperature models are non-empty (`minItems 1`, `minItems 2`) -/
+the ridge lists of oceanic temperature models are non-empty (`minItems 1`, `minItems 2`), likewise the ridge lists and the
+subducting-velocity rows of the slab temperature models (`SchemaLineTemps`) -/
 def SchemaWorldFacts (decl doc : Json) : Prop :=
   ∀ props l, schemaAt decl ["properties"] = .ok props → (⟨doc, props⟩ : Cur).pluginList "features" = .ok l →
-    ∀ mc ∈ l, SchemaCoordinatesMinItems1 mc.2 ∧ SchemaAreaRidges mc.2
+    ∀ mc ∈ l, SchemaCoordinatesMinItems1 mc.2 ∧ SchemaAreaRidges mc.2 ∧ SchemaLineTemps mc.2
 
 theorem parseWorld_post (decl : Json) (version : String) (doc : Json) (cull : Bool) :
-    PostI (parseWorld (R := R) decl version doc cull) (fun p => SchemaWorldFacts decl doc → p.world.TempsWellFormed → p.world.WellFormed) := by
+    PostI (parseWorld (R := R) decl version doc cull) (fun p => SchemaWorldFacts decl doc → p.world.SplineCmp → p.world.WellFormed) := by
   unfold parseWorld
   refine PostI.bind (PostI.pmLift (P := fun props => schemaAt decl ["properties"] = .ok props) (fun _ h => h)) (fun props hprops => ?_)
   extract_lets c jp
@@ -467,13 +406,13 @@ theorem parseWorld_post (decl : Json) (version : String) (doc : Json) (cull : Bo
   refine PostI.bind (PostI.triv_lift _) (fun x6 _ => ?_)
   refine PostI.bind (PostI.triv_lift _) (fun seed _ => ?_)
   refine PostI.bind (PostI.pmLift (P := fun l => (⟨doc, props⟩ : Cur).pluginList "features" = .ok l) (fun _ h => h)) (fun feats hfeats => ?_)
-  refine PostI.bind (P := fun acc => SchemaWorldFacts decl doc → ∀ f ∈ acc.1, f.TempsWellFormed → f.WellFormed) ?_ (fun acc hacc => ?_)
+  refine PostI.bind (P := fun acc => SchemaWorldFacts decl doc → ∀ f ∈ acc.1, f.SplineCmp → f.WellFormed) ?_ (fun acc hacc => ?_)
   · refine PostI.foldlM _ _ _ ?_ _ (fun _ f hf => by cases hf)
     rintro ⟨fs, tags⟩ ⟨m, cc⟩ hmem hfs
-    have hfacts : SchemaWorldFacts decl doc → SchemaCoordinatesMinItems1 cc ∧ SchemaAreaRidges cc :=
+    have hfacts : SchemaWorldFacts decl doc → SchemaCoordinatesMinItems1 cc ∧ SchemaAreaRidges cc ∧ SchemaLineTemps cc :=
       fun h => h props feats hprops hfeats _ hmem
-    have hstep : ∀ (f : Feature R) (tg : List String), (SchemaWorldFacts decl doc → f.TempsWellFormed → f.WellFormed) →
-        (SchemaWorldFacts decl doc → ∀ f' ∈ (fs ++ [f], tg).1, f'.TempsWellFormed → f'.WellFormed) := by
+    have hstep : ∀ (f : Feature R) (tg : List String), (SchemaWorldFacts decl doc → f.SplineCmp → f.WellFormed) →
+        (SchemaWorldFacts decl doc → ∀ f' ∈ (fs ++ [f], tg).1, f'.SplineCmp → f'.WellFormed) := by
       intro f tg hf hs f' hf'
       rcases List.mem_append.1 hf' with h | h
       · exact hfs hs f' h
@@ -482,22 +421,22 @@ theorem parseWorld_post (decl : Json) (version : String) (doc : Json) (cull : Bo
     split
     · refine PostI.bind (parseArea_post _ 0 _ cc tags) (fun r hr => ?_)
       obtain ⟨f, tg⟩ := r
-      exact PostI.pure (hstep (.area f) tg (fun hs _ => hr (hfacts hs).2))
+      exact PostI.pure (hstep (.area f) tg (fun hs _ => hr (hfacts hs).2.1))
     · refine PostI.bind (parseArea_post _ 1 _ cc tags) (fun r hr => ?_)
       obtain ⟨f, tg⟩ := r
-      exact PostI.pure (hstep (.area f) tg (fun hs _ => hr (hfacts hs).2))
+      exact PostI.pure (hstep (.area f) tg (fun hs _ => hr (hfacts hs).2.1))
     · refine PostI.bind (parseArea_post _ 2 _ cc tags) (fun r hr => ?_)
       obtain ⟨f, tg⟩ := r
-      exact PostI.pure (hstep (.area f) tg (fun hs _ => hr (hfacts hs).2))
+      exact PostI.pure (hstep (.area f) tg (fun hs _ => hr (hfacts hs).2.1))
     · refine PostI.bind (parsePlume_postI _ cc tags) (fun r hr => ?_)
       obtain ⟨f, tg⟩ := r
       exact PostI.pure (hstep (.plume f) tg (fun hs _ => hr.1 (hfacts hs).1))
     · refine PostI.bind (PostI.pmLift (parseLine_post _ false cc tags cull)) (fun r hr => ?_)
       obtain ⟨f, tg⟩ := r
-      exact PostI.pure (hstep (.line f) tg (fun _ => hr))
+      exact PostI.pure (hstep (.line f) tg (fun hs hn => hr (hfacts hs).2.2 hn))
     · refine PostI.bind (PostI.pmLift (parseLine_post _ true cc tags cull)) (fun r hr => ?_)
       obtain ⟨f, tg⟩ := r
-      exact PostI.pure (hstep (.line f) tg (fun _ => hr))
+      exact PostI.pure (hstep (.line f) tg (fun hs hn => hr (hfacts hs).2.2 hn))
     · exact PostI.pmErr
   · obtain ⟨features, tags⟩ := acc
     exact PostI.pure (fun hs ht f hf => hacc hs f hf (ht f hf))
